@@ -616,6 +616,13 @@ pub fn run(cfg: &Config) -> PropRun {
             stmts.push(format!("'{}'{sfx}", body.replace('"', "'")));
         }
     }
+    // fold-alike spellings of every keyword, suffix and in-stream data keyword (macro-free ones)
+    for (host, w) in spaces::fold_alike_words() {
+        let t = host.replacen("{}", &w, 1);
+        if is_macro_free(&t) {
+            stmts.push(t);
+        }
+    }
     stmts.sort();
     stmts.dedup();
     if cfg.only_spaces.is_empty() && !stmts.is_empty() {
